@@ -410,7 +410,7 @@ def run(ctx):
     qm.install()
     check_tables(h, ctx)
     qm.pending = []
-    check_relations(h, rnd, 1 if not ctx.thorough else 6)
+    check_relations(h, rnd, 2 if not ctx.thorough else 8)
     qm.pending = []
     check_strings(h, qm, rnd, ctx.scale(480, 24000) if ctx.worker else max(30, ctx.scale(480, 24000)))
     check_durations(h, rnd, ctx.scale(400, 20000))
